@@ -366,6 +366,69 @@ func tRun(P *Prover, loops map[*ssa.BasicBlock]map[*ssa.BasicBlock]bool, idx ssa
 	return "", false
 }
 
+// tStride: the index contains a phi K that walks down a column of the triangle in step with a row
+// counter J of the same loop: K starts at J0(J0-1)/2 + I0 where J starts at J0, and every back edge
+// carries K + J and J + 1. Since (J+1)J/2 = J(J-1)/2 + J the invariant is K = J(J-1)/2 + I0, so the
+// site addresses row J, column I0 + (the rest of the index).
+func tStride(P *Prover, loops map[*ssa.BasicBlock]map[*ssa.BasicBlock]bool, idx Poly) (Jp, Ip Poly, ok bool) {
+	for _, m := range idx.monos() {
+		if strings.Contains(m, "*") || m == "" || idx[m] != 1 {
+			continue
+		}
+		id, _ := strconv.Atoi(m)
+		a := P.atoms[id]
+		if a.kind != aVal {
+			continue
+		}
+		K, isPhi := a.val.(*ssa.Phi)
+		if !isPhi {
+			continue
+		}
+		body := loops[K.Block()]
+		if body == nil {
+			continue
+		}
+		k0, okInit := initOf(K, body)
+		if !okInit {
+			continue
+		}
+		J0, I0, okSplit := P.triSplit(P.poly(k0))
+		if !okSplit {
+			continue
+		}
+		for _, in := range K.Block().Instrs {
+			J, isPhi := in.(*ssa.Phi)
+			if !isPhi {
+				break
+			}
+			if J == K {
+				continue
+			}
+			lj, okJ := unitCounter(P, loops, J)
+			if !okJ || lj.header != K.Block() {
+				continue
+			}
+			j0, okJ0 := initOf(J, lj.body)
+			if !okJ0 || P.poly(j0).add(J0, -1).key() != "" {
+				continue
+			}
+			good := true
+			for e, pred := range K.Block().Preds {
+				if body[pred] && P.poly(K.Edges[e]).add(P.poly(K), -1).add(P.poly(J), -1).key() != "" {
+					good = false
+				}
+			}
+			if !good {
+				continue
+			}
+			rest := idx.clone()
+			delete(rest, m)
+			return P.poly(J), I0.add(rest, 1), true
+		}
+	}
+	return nil, nil, false
+}
+
 // tSweep: idx is exactly a unit-step loop counter, and the access executes on every iteration.
 func tSweep(P *Prover, loops map[*ssa.BasicBlock]map[*ssa.BasicBlock]bool, idx ssa.Value, at *ssa.BasicBlock) (string, bool) {
 	v := strip(idx)
@@ -457,13 +520,20 @@ func ruleTriX(c *Ctx, files func(string) bool, rule string, exactCell bool) *Rul
 					src = valName(ia)
 				}
 				idx := P.poly(ia.Index)
-				if J, I, ok := P.triSplit(idx); ok {
+				J, I, ok := P.triSplit(idx)
+				form := "T-closed"
+				if !ok {
+					if J, I, ok = tStride(P, loops, idx); ok {
+						form = "T-stride"
+					}
+				}
+				if ok {
 					ci, pi := P.locallyControlled(I)
 					cj, _ := P.locallyControlled(J)
 					controlled := ci && cj
 					ge := P.Prove(I.scale(-1), b)
 					lt := P.Prove(I.add(J, -1).add(constP(1), 1), b)
-					r.inst("%s: %s  T-closed J=%s I=%s (I>=0:%v I<J:%v, locally controlled:%v)", name, src, P.showTerm(J), P.showTerm(I), ge, lt, controlled)
+					r.inst("%s: %s  %s J=%s I=%s (I>=0:%v I<J:%v, locally controlled:%v)", name, src, form, P.showTerm(J), P.showTerm(I), ge, lt, controlled)
 					if exactCell && !(plainVar(J) && (plainVar(I) || len(I.monos()) == 0)) {
 						r.oblig(false)
 						r.find(name+":"+src+" offset cell", c.instrPos(ia), "%s: %s addresses row %s, column %s: a method of the representation must address the cell of the two vertices themselves (row = larger vertex, column = smaller), not a shifted row or column", name, src, P.showTerm(J), P.showTerm(I))
